@@ -829,7 +829,9 @@ def rule_lists_kept_whole(ctx, rep: Report, rid="G10", package="gtwrap/interface
     for mi in sorted(prog.modules.values(), key=lambda m: m.rel):
         if not mi.rel.startswith(package):
             continue
-        fns = [(f"{q}.{m}", f) for q, c in mi.classes.items() for m, f in c.methods.items() if not m.startswith("find")]
+        # (a property is a view computed from the node on request - a filtered one included -, not the tree the parser builds)
+        fns = [(f"{q}.{m}", f) for q, c in mi.classes.items() for m, f in c.methods.items() if not m.startswith("find")
+               and not any(unparse(d) in ("property", "cached_property", "functools.cached_property") for d in f.decorator_list)]
         for name, fn in sorted(fns):
             params = set(func_params(fn))
             # locals that are plain aliases of a parameter (ti_list = typename_and_instantiations_list)
